@@ -94,6 +94,12 @@ def analyse(out, prog, it, oc, exc, ctx, want_fail_checks=True):
                 normal = not (nt[1] in flag_set and flag_set[nt[1]] < lseq)
             elif nt[0] == 'time_ge':
                 normal = ltime < num(nt[1])
+            elif nt[0] == 'eternity':
+                normal = True
+            elif nt[0] == 'time_eq':
+                normal = en is not None and (num(nt[1]) < en[4] or ltime < num(nt[1]))
+            elif nt[0] == 'time_lt':
+                normal = en is not None and not (en[4] < num(nt[1]))
             else:
                 normal = False
         if normal:
